@@ -18,8 +18,10 @@ RULE = ('every accessor of AtomicBuffer x element type {u8,u16,i32,i64,u64,24-by
         'release builds. Calls are batched (<= 40 per line, each on a fresh fixture). A case is non-trivial when some call has a '
         'negative argument or reaches the end of the region or beyond')
 ASSUMPTIONS = [
-    'slices handed to put_bytes / put_string* / write are shorter than 2^31 bytes (the `as Index` truncation of longer slices is '
-    'modelled - wrap32 - and excluded by hypothesis in the theorems; it cannot be exercised without a 4 GiB source)',
+    'slices handed to put_bytes / put_string* / write are shorter than 2^31 bytes while the accessor converts their length with '
+    '`as Index` (the truncation is modelled and the theorems carry the hypothesis slice_ok; a witness theorem shows it is needed); '
+    'once the accessor uses a checked conversion (read off the source: gen_chk_*) the hypothesis disappears. Slices of 2^31..2^32+8 '
+    'bytes are exercised in the thorough tier only (4 GiB of lazily mapped zero pages per call)',
     'atomic accessors (put_atomic_i64, compare_and_set_*, get_and_add_i64) and as_ref::<T> for aligned T are exercised at naturally '
     'aligned addresses only: a misaligned dereference aborts a debug build by design of rustc and is no subject of C16',
     'the wrapped region itself is valid: 0 <= capacity < 2^31 and really allocated (wrap_slice / from_aligned)',
@@ -315,6 +317,11 @@ def generate(rng, tier):
         calls = [_np([op, off, n]) for op in ('putb', 'ps', 'pswl') for off in (0, 1, cap - 1, cap, -1) for n in (100, 255, 256, 1000, 65536)]
         calls += [_np(['write', n]) for n in (100, 1000, 65536)]
         cases += _batches('long-slices', cap, 8, calls, size=5)
+    if big:
+        # slices longer than Index::MAX (4 GiB of lazily mapped zero pages each): one call per line
+        for toks in (['putb', 0, 2**32 + 4], ['putb', 0, 2**32], ['putb', 4, 2**31], ['ps', 0, 2**32 + 4], ['pswl', 0, 2**32 + 4],
+                     ['write', 2**32 + 8], ['ps', 0, 2**32 - 4]):
+            cases.append(_mk('huge-slice', 16, 8, [_np(toks)]))
     cases += view_cases(rng, [8, 16] if not big else [4, 8, 16, 32], W, 14 if not big else 120)
     cases += random_cases(rng, 400 if not big else 6000)
     # the Coq side evaluates consecutive slices of this list in parallel: interleave one-call lines and batches
@@ -363,6 +370,13 @@ def shrink(c):
     return out
 
 
+def known_class(c, mode, obs):
+    """the `as Index` truncation of slice lengths above Index::MAX (repaired by fixes/C16-slice-length-truncation.diff)"""
+    if c.get('kind') == 'huge-slice':
+        return 'slice-length-truncation'
+    return None
+
+
 def neighbours(c, rng):
     out = []
     for p, w, toks in c['calls'][:4]:
@@ -385,7 +399,7 @@ EXPECTED_CHECKS = {
     'compare_and_set_i32': ['self:position,I32_SIZE'],
     'compare_and_set_i64': ['self:position,I64_SIZE'],
     'add_i64_ordered': ['self:offset,I64_SIZE'],
-    'put_bytes': ['self:offset,src.len()asIndex'],
+    'put_bytes': [['self:offset,src.len()asIndex'], ['self:offset,Self::slice_len(src.len())']],
     'get_bytes': ['self:offset,lengthasIndex'],
     'copy_from': ['self:offset,length', 'src_buffer:src_offset,length'],
     'as_mutable_slice': [],
@@ -394,8 +408,8 @@ EXPECTED_CHECKS = {
     'get_string': ['self:offset,4'],
     'get_string_without_length': ['self:offset,length'],
     'get_string_length': ['self:offset,4'],
-    'put_string': ['self:offset,string.len()asIndex+I32_SIZE'],
-    'put_string_without_length': ['self:offset,string.len()asIndex'],
+    'put_string': [['self:offset,string.len()asIndex+I32_SIZE'], ['self:offset,length+I32_SIZE']],
+    'put_string_without_length': [['self:offset,string.len()asIndex'], ['self:offset,length']],
     'get_and_add_i64': ['self:offset,I64_SIZE'],
 }
 
@@ -418,7 +432,11 @@ def extra_checks(run):
     try:
         text = open(os.path.join(core.REPO, tr.SRC)).read()
         got = tr.accessor_checks(text)
-        bad = ['%s: %s (model: %s)' % (a, got[a][0], EXPECTED_CHECKS[a]) for a in tr.ACCESSORS if got[a][0] != EXPECTED_CHECKS[a]]
+        def same(a):
+            want = EXPECTED_CHECKS[a]
+            alts = want if want and isinstance(want[0], list) else [want]     # two accepted spellings of a slice length
+            return got[a][0] in alts
+        bad = ['%s: %s (model: %s)' % (a, got[a][0], EXPECTED_CHECKS[a]) for a in tr.ACCESSORS if not same(a)]
         res.append((not bad, 'K1 source shape: bounds_check calls of every accessor are the ones the model transcribes', '; '.join(bad)))
     except Exception as e:
         res.append((False, 'K1 source shape: accessors', '%s: %s' % (type(e).__name__, e)))
